@@ -28,6 +28,7 @@ var rawFuncs = map[string]struct {
 	"s_base": {"s_base", SInt}, "s_off": {"s_off", SInt}, "s_len": {"s_len", SInt}, "s_cap": {"s_cap", SInt},
 	"arr2str": {"arr2str", SStr},
 	"rv_valid": {"rv_valid", SBool}, "rv_val": {"rv_val", SVal}, "rv_iface": {"rv_iface", SBool}, "mk_rv": {"mk_rv", "RV"},
+	"tmd": {"tmd", SStr},
 	"rvkind": {"rvkind", SInt}, "tconvertible": {"tconvertible", SBool},
 }
 
@@ -765,7 +766,7 @@ func autoPatterns(body, v string) string {
 					return true
 				}
 			}
-			if !seen[s] && len(s) < 400 {
+			if !seen[s] && len(s) < 400 && !strings.Contains(s, "(ite ") && !strings.Contains(s, "(not ") && !strings.Contains(s, "(and ") && !strings.Contains(s, "(or ") && !strings.Contains(s, "(= ") && !strings.Contains(s, "(<") && !strings.Contains(s, "(>") {
 				seen[s] = true
 				pats = append(pats, s)
 			}
@@ -773,6 +774,13 @@ func autoPatterns(body, v string) string {
 		return childHas
 	}
 	walk(body)
+	var okPats []string
+	for _, p := range pats {
+		if !varUnderArith(p, v) {
+			okPats = append(okPats, p)
+		}
+	}
+	pats = okPats
 	if len(pats) == 0 || len(pats) > 4 {
 		return ""
 	}
@@ -789,4 +797,49 @@ func isTriggerHead(h string) bool {
 		return true
 	}
 	return strings.HasPrefix(h, "m$") || strings.HasPrefix(h, "pf$") || strings.HasPrefix(h, "df$") || strings.HasPrefix(h, "box$") || strings.HasPrefix(h, "unbox$")
+}
+
+// varUnderArith: does v occur inside an interpreted arithmetic sub-term of s?
+func varUnderArith(s, v string) bool {
+	for _, op := range []string{"(+ ", "(- ", "(* "} {
+		for i := 0; ; {
+			k := strings.Index(s[i:], op)
+			if k < 0 {
+				break
+			}
+			k += i
+			depth := 0
+			j := k
+			for ; j < len(s); j++ {
+				if s[j] == '(' {
+					depth++
+				} else if s[j] == ')' {
+					depth--
+					if depth == 0 {
+						break
+					}
+				}
+			}
+			if j < len(s) && containsWord(s[k:j+1], v) {
+				return true
+			}
+			i = k + len(op)
+		}
+	}
+	return false
+}
+
+func containsWord(s, w string) bool {
+	for i := 0; ; {
+		k := strings.Index(s[i:], w)
+		if k < 0 {
+			return false
+		}
+		k += i
+		end := k + len(w)
+		if (k == 0 || s[k-1] == ' ' || s[k-1] == '(') && (end == len(s) || s[end] == ' ' || s[end] == ')') {
+			return true
+		}
+		i = end
+	}
 }
